@@ -13,6 +13,14 @@ wt = "/tmp/mut/w" + tag
 import re
 t = t.replace("__WT__", wt).replace("__ID__", tag)
 t = t.replace("__PROP__", prop)
+# earlier seeded ideas for this property: facts about changes already in the collection (nothing about the checks), so that a new change uses another mechanism
+import glob
+prev = []
+for d in sorted(glob.glob("/verif/seeded/%s*/meta.json" % ID)):
+    b = json.load(open(d)).get("breaks") or ""
+    if b: prev.append("  - " + b.strip().replace("\n", " ")[:400])
+if prev:
+    t += "\n\nIdeas ALREADY USED for this property by other engineers (do NOT repeat them or close variants; choose a different mechanism, ideally in a different function or file):\n" + "\n".join(prev) + "\n"
 os.makedirs("/tmp/mut/out/" + tag, exist_ok=True)
 open("/tmp/mut/prompt_%s.txt" % tag, "w").write(t)
 subprocess.run(["git", "-C", "/repo", "worktree", "add", "--detach", wt, "HEAD"], check=True, capture_output=True)
